@@ -257,6 +257,9 @@ func classify(point string, kv []any) (string, map[string]any, string) {
 	m := kvMap(kv)
 	run, _ := m["run"].(string)
 	g := sched.GoID()
+	if strings.HasPrefix(point, "y:") {
+		return point, nil, "" // statement-level yield point inserted by cmd/yieldgen (build overlay)
+	}
 	switch point {
 	// ---- client gates
 	case "c.send.pre":
